@@ -583,14 +583,18 @@ def Events_full : Prop :=
     ctx.accessor.authMode ≠ some AuthMode.group →
     reportEvents ctx node ff paths queue = expectedEvents ctx node ff paths queue
 
-/-- **Event paths, proved part**: equality with the specification except that a concrete path naming
-an absent event gets no `UnsupportedEvent` status (finding `C06-absent-event-silent`). -/
-theorem events_eq_spec_partial (ctx : Ctx) (node : Node) (ff : Bool) (paths : List Path)
+/-- **Event paths**: `report_events` equals the specification — every concrete path that is absent
+(endpoint / cluster / event) or not permitted gets exactly its status, every visible occurrence is
+reported once in queue order, nothing else (since the repair of `C06-absent-event-silent` this
+includes the `UnsupportedEvent` status of a concrete path naming an absent event). -/
+theorem events_eq_spec (ctx : Ctx) (node : Node) (ff : Bool) (paths : List Path)
     (queue : List EventOcc)
     (hev : eventsWF node = true) (hwf : WF ctx.fabrics) (hcan : CanonicalPrivs ctx.fabrics)
     (hg : ctx.accessor.authMode ≠ some AuthMode.group) :
-    reportEvents ctx node ff paths queue = expectedEventsSilent ctx node ff paths queue :=
-  reportEvents_eq_expectedSilent ctx node ff paths queue hev hwf hcan hg
+    reportEvents ctx node ff paths queue = expectedEvents ctx node ff paths queue :=
+  reportEvents_eq_expected ctx node ff paths queue hev hwf hcan hg
+
+theorem Events_full_holds : Events_full := events_eq_spec
 
 /-- every disclosed occurrence exists on the node, is permitted, matches a requested path and passes
 the fabric filter -/
@@ -600,9 +604,8 @@ theorem event_disclosed_visible (ctx : Ctx) (node : Node) (ff : Bool) (paths : L
     (hg : ctx.accessor.authMode ≠ some AuthMode.group) (o : EventOcc)
     (h : EvOut.data o ∈ reportEvents ctx node ff paths queue) :
     o ∈ queue ∧ eventVisible ctx node ff paths o = true := by
-  rw [events_eq_spec_partial ctx node ff paths queue hev hwf hcan hg] at h
-  unfold expectedEventsSilent expectedEvents at h
-  obtain ⟨h, _⟩ := List.mem_filter.mp h
+  rw [events_eq_spec ctx node ff paths queue hev hwf hcan hg] at h
+  unfold expectedEvents at h
   rcases List.mem_append.mp h with h | h
   · obtain ⟨p, _, hp⟩ := List.mem_filterMap.mp h
     split at hp
@@ -745,8 +748,9 @@ def demoAclOp : List Fabric :=
 def demoCtxOp : Ctx := { demoCtx false with fabrics := demoAclOp }
 example : reportEvents demoCtxOp demoNodeEv true [wild, conc 1 6 1, conc 1 9 0] evq =
     [.status (conc 1 6 1) .unsupportedAccess, .status (conc 1 9 0) .unsupportedCluster, .data evq[0]!] := by decide
-/-- the full statement fails on the code's model: a concrete path naming an absent event -/
-example : reportEvents demoCtxOp demoNodeEv true [conc 1 6 7] evq = [] ∧
+/-- a concrete path naming an absent event gets `UnsupportedEvent` (was silent before the repair of
+`C06-absent-event-silent`) -/
+example : reportEvents demoCtxOp demoNodeEv true [conc 1 6 7] evq = [.status (conc 1 6 7) .unsupportedEvent] ∧
     expectedEvents demoCtxOp demoNodeEv true [conc 1 6 7] evq = [.status (conc 1 6 7) .unsupportedEvent] := by decide
 /-- the request-level gates -/
 example : (imRequest .write true (some (100, 101)) [conc 1 6 1] []).top = some "Timeout" ∧
